@@ -71,6 +71,25 @@ def hard_inputs():
     out.append(("Triangle.locate", [enc_arr(t3), enc_arr([[F(1, 4)], [F(1, 4)]])]))
     out.append(("Curve.locate", [enc_arr(cub), enc_arr([[F(1, 2)], [F(0)]])]))
     out.append(("Curve.evaluate", [enc_arr(cub), enc_f(F(3, 8))]))
+    # the same routine at one degree in several dimensions, larger first and smaller first (scratch space kept between calls must
+    # not leak): curves (specialize, subdivide, evaluate, elevate) and triangles on the generic path (degree 5, 6) and the table path
+    import random as _r
+    g = _r.Random(20240917)
+    dy = lambda: F(g.randint(-64, 64), 8)
+    for n in (3, 4, 6):
+        for dim in (4, 1, 3, 2, 4):
+            c = [[dy() for _ in range(n + 1)] for _ in range(dim)]
+            out.append(("shim.specialize_curve", [enc_arr(c), enc_f(F(1, 4)), enc_f(F(3, 4))]))
+            out.append(("shim.subdivide_nodes", [enc_arr(c)]))
+            out.append(("shim.evaluate_multi", [enc_arr(c), enc_vec([F(1, 4), F(5, 8)])]))
+            out.append(("shim.elevate_nodes", [enc_arr(c)]))
+    for d in (2, 5, 6):
+        num = (d + 1) * (d + 2) // 2
+        for dim in (3, 1, 2, 3):
+            t = [[dy() for _ in range(num)] for _ in range(dim)]
+            out.append(("shim.tri_subdivide_nodes", [enc_arr(t), d]))
+            out.append(("shim.tri_specialize", [enc_arr(t), d, enc_vec([F(1), F(0), F(0)]), enc_vec([F(1, 2), F(1, 2), F(0)]), enc_vec([F(1, 4), F(1, 4), F(1, 2)])]))
+            out.append(("shim.tri_evaluate_barycentric_multi", [enc_arr(t), d, enc_arr([[F(1, 4), F(1, 4), F(1, 2)], [F(1), F(0), F(0)]]), dim]))
     return out
 
 
